@@ -67,14 +67,20 @@ structure RCfg where
   /-- `_cached_inputs` of a node that is still `running` (written when the run was admitted, the
   outputs do not exist yet) are not persisted (now: they are) -/
   dropInFlight : Bool
+  /-- `Composite._on_run`, branch "start fresh" (no child marked running), empties the `received`
+  set of every child's all-of trigger before the starting nodes run (fix bc0a763; before: what a
+  previous, interrupted run had collected — also through the file — stayed in the triggers) -/
+  resetReceived : Bool
   deriving Repr, DecidableEq
 
 /-- the tree as originally pinned -/
-def RCfg.original : RCfg := { cache := Cache.Cfg.pinned, dropInFlight := false }
-/-- /repo as it is now (fix 0699958 applied) -/
-def RCfg.now : RCfg := { cache := Cache.Cfg.repaired, dropInFlight := false }
+def RCfg.original : RCfg := { cache := Cache.Cfg.pinned, dropInFlight := false, resetReceived := false }
+/-- after fix 0699958 (cache dropped on failure), before fix bc0a763 -/
+def RCfg.stale : RCfg := { cache := Cache.Cfg.repaired, dropInFlight := false, resetReceived := false }
+/-- /repo as it is now (fixes 0699958 and bc0a763 applied) -/
+def RCfg.now : RCfg := { cache := Cache.Cfg.repaired, dropInFlight := false, resetReceived := true }
 /-- with the proposed repair fixes/C08-inflight-cache.patch -/
-def RCfg.repaired : RCfg := { cache := Cache.Cfg.repaired, dropInFlight := true }
+def RCfg.repaired : RCfg := { cache := Cache.Cfg.repaired, dropInFlight := true, resetReceived := true }
 
 /-! ### the file -/
 structure Snap where
@@ -103,27 +109,46 @@ def snapshot (rc : RCfg) (s : S) : Snap :=
 def Snap.clearFlags (sn : Snap) : Snap :=
   { sn with failed := fun _ => false, running := fun _ => false }
 
+/-! ### removing the cause
+
+Besides making the failing function work again (the fault table is not consulted by the resumed
+run) the user may assign new values to unconnected inputs of some nodes (`dirty`).  A term node whose
+own input values changed computes a different function of its connected inputs: its output is written
+with the fresh symbol `i + off` (`off` above every node id) — "`f_i` with the new own inputs". -/
+structure Fix where
+  dirty : Nat → Bool
+  off   : Nat
+
+def Fix.none : Fix := { dirty := fun _ => false, off := 0 }
+
+/-- the function symbol of node `i` after the fix -/
+def Fix.sym (fx : Fix) (i : Nat) : Nat := if fx.dirty i then i + fx.off else i
+
 /-! ### the resumed run -/
 structure RS where
   s      : S                          -- scheduler state of the resumed run (outputs start as loaded)
   cache  : Nat → Option (List Val)    -- `_cached_inputs`
   fcalls : Nat → Nat                  -- invocations of the wrapped function during the resumed run
 
-/-- the restored graph about to be run again: nothing has run in THIS run, outputs / caches /
-`received` sets are the loaded ones; a flag that was not cleared blocks the node -/
-def resumeInit (d : Dag) (sn : Snap) : RS :=
+/-- the restored graph about to be run again: nothing has run in THIS run, outputs and caches are the
+loaded ones, the `received` sets are the loaded ones unless `_on_run` empties them; a flag that was
+not cleared blocks the node -/
+def resumeInit (rc : RCfg) (d : Dag) (sn : Snap) : RS :=
   { s := { init d with
-             out := sn.out, received := sn.received,
+             out := sn.out,
+             received := if rc.resetReceived then (fun _ => []) else sn.received,
              st := fun i => if sn.failed i then .failed else if sn.running i then .out else .idle },
     cache := sn.cache, fcalls := fun _ => 0 }
 
-/-- `child.run()` on the restored graph: fetch, (cache hit | readiness gate, cache write, run) -/
-def rrunNode (d : Dag) (rs : RS) (i : Nat) : RS × Outcome :=
+/-- `child.run()` on the restored graph: fetch, (cache hit | readiness gate, cache write, run).
+`inputs.to_value_dict() == _cached_inputs` compares connected AND own input values: a node whose own
+inputs were changed never hits. -/
+def rrunNode (fx : Fix) (d : Dag) (rs : RS) (i : Nat) : RS × Outcome :=
   let s := rs.s
   let a := fetchArgs d s.out i
   if s.st i ≠ .idle ∨ a.any Val.isNd then
     (rs, .raised)                                   -- ReadinessError
-  else if rs.cache i = some a then
+  else if rs.cache i = some a ∧ fx.dirty i = false then
     -- cache hit: outputs stay, start + finish registered, `ran` emitted, function NOT called
     ({ rs with s := { s with calls := updF s.calls i (s.calls i + 1), args := updF s.args i a,
                              execLog := s.execLog ++ [i], doneLog := s.doneLog ++ [i],
@@ -135,16 +160,16 @@ def rrunNode (d : Dag) (rs : RS) (i : Nat) : RS × Outcome :=
     if d.onExec i then
       ({ rs1 with s := { s1 with st := updF s.st i .out, running := s.running ++ [i] } }, .ok)
     else
-      ({ rs1 with s := { s1 with st := updF s.st i .done, out := updF s.out i (.app i a),
+      ({ rs1 with s := { s1 with st := updF s.st i .done, out := updF s.out i (.app (fx.sym i) a),
                                  doneLog := s.doneLog ++ [i], queue := s.queue ++ emit d i } }, .ok)
 
 /-- the scheduler of `Exec.step` with `rrunNode` in place of `runNode`; the cause of the failure is
 removed, so no function raises (`d.fails` is not consulted) -/
-def rstep (cfg : Cfg) (d : Dag) (rs : RS) : Act → Option RS
+def rstep (fx : Fix) (cfg : Cfg) (d : Dag) (rs : RS) : Act → Option RS
   | .start =>
     match rs.s.phase with
     | .run (i :: rest) =>
-      match rrunNode d rs i with
+      match rrunNode fx d rs i with
       | (r', .ok) => some { r' with s := { r'.s with phase := .run rest } }
       | (r', .raised) =>
         if cfg.startAborts then some { r' with s := { r'.s with phase := .aborted } }
@@ -155,7 +180,7 @@ def rstep (cfg : Cfg) (d : Dag) (rs : RS) : Act → Option RS
     | .run [], (j, i) :: q =>
       let rec' := j :: rs.s.received i
       if (d.deps i).all (fun x => rec'.contains x) then
-        match rrunNode d { rs with s := { rs.s with queue := q, received := updF rs.s.received i [] } } i with
+        match rrunNode fx d { rs with s := { rs.s with queue := q, received := updF rs.s.received i [] } } i with
         | (r', .ok) => some r'
         | (r', .raised) => some { r' with s := { r'.s with errs := r'.s.errs ++ [i] } }
       else
@@ -167,7 +192,7 @@ def rstep (cfg : Cfg) (d : Dag) (rs : RS) : Act → Option RS
       if rs.s.st k = .out then
         some { rs with s := { rs.s with running := rs.s.running.erase k, doneLog := rs.s.doneLog ++ [k],
                                         st := updF rs.s.st k .done,
-                                        out := updF rs.s.out k (.app k (rs.s.args k)),
+                                        out := updF rs.s.out k (.app (fx.sym k) (rs.s.args k)),
                                         queue := rs.s.queue ++ emit d k } }
       else none
     | _ => none
@@ -176,14 +201,14 @@ def rstep (cfg : Cfg) (d : Dag) (rs : RS) : Act → Option RS
     | .run [], [], [] => some { rs with s := { rs.s with phase := .exited } }
     | _, _, _ => none
 
-def rrunActs (cfg : Cfg) (d : Dag) (rs : RS) : List Act → Option RS
+def rrunActs (fx : Fix) (cfg : Cfg) (d : Dag) (rs : RS) : List Act → Option RS
   | [] => some rs
-  | a :: as => match rstep cfg d rs a with
-    | some rs' => rrunActs cfg d rs' as
+  | a :: as => match rstep fx cfg d rs a with
+    | some rs' => rrunActs fx cfg d rs' as
     | none => none
 
 /-- cut at `s`, file written, loaded, flags cleared: where the resumed run starts -/
-def resumeFrom (rc : RCfg) (d : Dag) (s : S) : RS := resumeInit d (snapshot rc s).clearFlags
+def resumeFrom (rc : RCfg) (d : Dag) (s : S) : RS := resumeInit rc d (snapshot rc s).clearFlags
 
 /-! ### who writes which file (`Node._run_finally`, `Node.save_checkpoint`)
 
